@@ -11,6 +11,7 @@ import Driver.Conv
 import Driver.Wave
 import Driver.MdsData
 import Driver.Tags
+import Driver.Conf
 open Driver
 
 def allHandlers : List Handler :=
@@ -22,6 +23,7 @@ def allHandlers : List Handler :=
   ++ WaveD.handlers
   ++ MdsDataD.handlers
   ++ TagsD.handlers
+  ++ ConfD.handlers
 
 def answerModel (cmd arg : String) : String :=
   match allHandlers.find? (·.cmd == cmd) with
